@@ -682,9 +682,39 @@ def _pure_body(callee):
         if not (isinstance(s, ast.Assign) and len(s.targets) == 1 and isinstance(s.targets[0], ast.Name)) or s.targets[0].id in env:
             return None
         env[s.targets[0].id] = nf.subst(s.value, env)
-    if callee.node.args.vararg or callee.node.args.kwarg or any(isinstance(n, (ast.Yield, ast.YieldFrom, ast.Lambda)) for n in ast.walk(callee.node)):
+    if callee.node.args.kwarg or any(isinstance(n, (ast.Yield, ast.YieldFrom, ast.Lambda)) for n in ast.walk(callee.node)):
+        return None
+    if callee.node.args.vararg and (body[:-1] or not _only_spread(body[-1].value, callee.node.args.vararg.arg)):
         return None
     return env, nf.subst(body[-1].value, env)
+
+
+def _only_spread(e, name):
+    """Every use of the *args parameter is a spread `f(*args)` as the last positional argument."""
+    uses = [n for n in ast.walk(e) if isinstance(n, ast.Name) and n.id == name]
+    spreads = [c.args[-1].value for c in ast.walk(e) if isinstance(c, ast.Call) and c.args and isinstance(c.args[-1], ast.Starred)
+               and isinstance(c.args[-1].value, ast.Name) and c.args[-1].value.id == name]
+    return len(uses) == len(spreads)
+
+
+class _Splice(ast.NodeTransformer):
+    """f(a, *(x, y)) -> f(a, x, y)"""
+    def visit_Call(self, node):
+        self.generic_visit(node)
+        if node.args and isinstance(node.args[-1], ast.Starred) and isinstance(node.args[-1].value, ast.Tuple):
+            node.args = node.args[:-1] + list(node.args[-1].value.elts)
+        return node
+
+
+class Beta(ast.NodeTransformer):
+    """(lambda a, b: body)(x, y) -> body[a:=x, b:=y]  (positional parameters only)"""
+    def visit_Call(self, node):
+        self.generic_visit(node)
+        f = node.func
+        if isinstance(f, ast.Lambda) and not node.keywords and not f.args.vararg and not f.args.kwarg and not f.args.kwonlyargs \
+                and len(f.args.args) == len(node.args) and not any(isinstance(a, ast.Starred) for a in node.args):
+            return nf.subst(f.body, {p_.arg: a for p_, a in zip(f.args.args, node.args)})
+        return node
 
 
 def inline_pure_calls(idx, fi, only=None):
@@ -720,14 +750,27 @@ def inline_pure_calls(idx, fi, only=None):
             params = list(callee.params)
             if callee.cls is not None and not callee.is_static:
                 params = params[1:]
+            va = callee.node.args.vararg
+            call_ = n
+            extra = None
+            if va is not None:
+                fixed = [p_ for p_ in params if p_ != va.arg]
+                if n.keywords or any(isinstance(a_, ast.Starred) for a_ in n.args) or len(n.args) < len(fixed):
+                    return n
+                extra = ast.Tuple(elts=list(n.args[len(fixed):]), ctx=ast.Load())
+                call_ = ast.Call(func=n.func, args=list(n.args[:len(fixed)]), keywords=[])
+                params = fixed
             try:
-                bound = bind_call(n, params)
+                bound = bind_call(call_, params)
             except AnalysisError:
                 return n
             if set(bound) != set(params):
                 return n
+            if extra is not None:
+                bound = dict(bound)
+                bound[va.arg] = extra
             done.add(callee.qualname)
-            return ast.copy_location(nf.subst(pb[1], bound), n)
+            return ast.copy_location(_Splice().visit(nf.subst(pb[1], bound)), n)
     new = T().visit(node)
     if not done:
         return fi, done
@@ -815,7 +858,7 @@ def settled(fi, keyed=True):
     for n in walk_own(node):
         for t in (n.targets if isinstance(n, ast.Assign) else [n.target] if isinstance(n, (ast.AugAssign, ast.For, ast.comprehension)) else []):
             for x in ast.walk(t):
-                if isinstance(x, ast.Name):
+                if isinstance(x, ast.Name) and isinstance(x.ctx, (ast.Store, ast.Del)):
                     counts[x.id] = counts.get(x.id, 0) + 1
     # `a, b = x, y` with values that read none of the targets is the two assignments in sequence
     split = []
@@ -859,6 +902,33 @@ def settled(fi, keyed=True):
                 continue
             body.append(nf._Subst(alias).visit(s))
         node.body = body
+    # the same inside loop bodies: `b = a` directly in the body of a loop, both names bound once in the function, every
+    # read of b after it in statement order: b is this iteration's a
+    order = {}
+
+    def number(stmts):
+        for s_ in stmts:
+            order[id(s_)] = len(order)
+            for fld in ('body', 'orelse', 'finalbody'):
+                if isinstance(getattr(s_, fld, None), list):
+                    number(getattr(s_, fld))
+            for h in getattr(s_, 'handlers', []) or []:
+                number(h.body)
+    number(node.body)
+    set_parents(node)
+    nested = {}
+    for lp in [x for x in walk_own(node) if isinstance(x, (ast.For, ast.While))]:
+        for s in list(lp.body):
+            if isinstance(s, ast.Assign) and len(s.targets) == 1 and isinstance(s.targets[0], ast.Name) and isinstance(s.value, ast.Name) \
+                    and counts.get(s.targets[0].id) == 1 and counts.get(s.value.id) == 1 and s.targets[0].id not in fi.params:
+                b, a = s.targets[0].id, s.value.id
+                adef = [x for x in lp.body if isinstance(x, ast.Assign) and len(x.targets) == 1 and is_name(x.targets[0], a)]
+                reads = [n for n in walk_own(node) if isinstance(n, ast.Name) and n.id == b and isinstance(n.ctx, ast.Load)]
+                if len(adef) == 1 and order[id(adef[0])] < order[id(s)] and all(order.get(id(_stmt_of(n)), -1) > order[id(s)] for n in reads):
+                    nested[b] = a
+                    lp.body.remove(s)
+    if nested:
+        node = nf._Subst({b: ast.Name(id=a, ctx=ast.Load()) for b, a in nested.items()}).visit(node)
     if keyed:
         node = _Keyed().visit(node)
     ast.fix_missing_locations(node)
@@ -1239,3 +1309,357 @@ def expand_table_lookups(fi, resolve):
     ast.fix_missing_locations(node)
     set_parents(node)
     return View(fi, node)
+
+
+# ------------------------------------------------------------------ next() over a constant table, message-then-raise
+def expand_next_over_tables(fi, rows_of):
+    """View in which `T = next((ELT for TGT in TABLE if COND), DEFAULT)` (TABLE resolved by rows_of(expr) to a list of
+    tuple rows) is read as the first-match chain `if COND(R0): T = ELT(R0) elif ... else: T = DEFAULT`; lambdas that
+    come out of the rows are applied to their arguments."""
+    from ..index import clone, set_parents
+    node = clone(fi.node)
+    changed = [False]
+
+    def chain_for(st):
+        if not (isinstance(st, ast.Assign) and len(st.targets) == 1 and isinstance(st.value, ast.Call) and isinstance(st.value.func, ast.Name)
+                and st.value.func.id == 'next' and len(st.value.args) == 2 and not st.value.keywords
+                and isinstance(st.value.args[0], ast.GeneratorExp) and len(st.value.args[0].generators) == 1):
+            return None
+        gen = st.value.args[0]
+        g = gen.generators[0]
+        rows = rows_of(g.iter)
+        if rows is None or g.is_async:
+            return None
+        out = [ast.copy_location(ast.Assign(targets=[clone(st.targets[0])], value=clone(st.value.args[1])), st)]
+        for row in reversed(rows):
+            b = _bind_target(g.target, row)
+            if b is None:
+                return None
+            conds = [Beta().visit(_Splice().visit(nf.subst(clone(t), b))) for t in g.ifs]
+            elt = Beta().visit(_Splice().visit(nf.subst(clone(gen.elt), b)))
+            leaf = ast.copy_location(ast.Assign(targets=[clone(st.targets[0])], value=elt), st)
+            if not conds:
+                out = [leaf]
+            else:
+                test = conds[0] if len(conds) == 1 else ast.BoolOp(op=ast.And(), values=conds)
+                out = [ast.copy_location(ast.If(test=test, body=[leaf], orelse=out), st)]
+        return out
+
+    def rewrite(stmts):
+        res = []
+        for st in stmts:
+            for fld in ('body', 'orelse', 'finalbody'):
+                if isinstance(getattr(st, fld, None), list) and not isinstance(st, (ast.FunctionDef, ast.ClassDef)):
+                    setattr(st, fld, rewrite(getattr(st, fld)))
+            ch = chain_for(st)
+            if ch is not None:
+                res.extend(ch)
+                changed[0] = True
+            else:
+                res.append(st)
+        return res
+    node.body = rewrite(node.body)
+    if not changed[0]:
+        return fi
+    ast.fix_missing_locations(node)
+    set_parents(node)
+    return View(fi, node)
+
+
+def fuse_message_raise(fi):
+    """View in which `if c0: M = 'a' elif c1: M = 'b' else: M = None` directly followed by `if M is not None: raise E(..M..)`
+    (M read nowhere else) is read as `if c0: raise E(..'a'..) elif c1: raise E(..'b'..)`."""
+    from ..index import clone, set_parents, walk_own
+    node = clone(fi.node)
+    changed = [False]
+
+    def leaves(st, M):
+        """[(list holding the leaf, index)] of the chain's assignments to M, or None."""
+        out = []
+        for branch in (st.body, st.orelse):
+            if len(branch) == 1 and isinstance(branch[0], ast.Assign) and len(branch[0].targets) == 1 and is_name(branch[0].targets[0], M) \
+                    and isinstance(branch[0].value, ast.Constant):
+                out.append((branch, 0))
+            elif len(branch) == 1 and isinstance(branch[0], ast.If):
+                sub = leaves(branch[0], M)
+                if sub is None:
+                    return None
+                out.extend(sub)
+            else:
+                return None
+        return out
+
+    def rewrite(stmts):
+        res = []
+        i = 0
+        while i < len(stmts):
+            st = stmts[i]
+            for fld in ('body', 'orelse', 'finalbody'):
+                if isinstance(getattr(st, fld, None), list) and not isinstance(st, (ast.FunctionDef, ast.ClassDef)):
+                    setattr(st, fld, rewrite(getattr(st, fld)))
+            nxt = stmts[i + 1] if i + 1 < len(stmts) else None
+            if isinstance(st, ast.If) and isinstance(nxt, ast.If) and not nxt.orelse and len(nxt.body) == 1 and isinstance(nxt.body[0], ast.Raise):
+                tb = m("_M is not None", nf.canon(nxt.test))
+                M = tb['_M'].id if tb is not None and isinstance(tb['_M'], ast.Name) else None
+                lv = leaves(st, M) if M else None
+                reads = [n for n in walk_own(node) if isinstance(n, ast.Name) and n.id == M and isinstance(n.ctx, ast.Load)] if M else []
+                inside = [n for n in ast.walk(nxt) if isinstance(n, ast.Name) and n.id == M and isinstance(n.ctx, ast.Load)] if M else []
+                if lv and len(reads) == len(inside):
+                    for branch, k in lv:
+                        val = branch[k].value
+                        if val.value is None:
+                            branch[k] = ast.copy_location(ast.Pass(), branch[k])
+                        else:
+                            branch[k] = ast.copy_location(nf._Subst({M: val}).visit(clone(nxt.body[0])), branch[k])
+                    res.append(st)
+                    changed[0] = True
+                    i += 2
+                    continue
+            res.append(st)
+            i += 1
+        return res
+    node.body = rewrite(node.body)
+    if not changed[0]:
+        return fi
+    ast.fix_missing_locations(node)
+    set_parents(node)
+    return View(fi, node)
+
+
+# ------------------------------------------------------------------ per-call record objects as locals
+def scalarize(idx, fi):
+    """View in which a local record object `P = Cls(args)` of a package class whose __init__ only stores its parameters /
+    fresh empty displays into fields, and which is used through `P.field` only (never handed on, no method calls left),
+    is read as one local per field (`P__field`)."""
+    from ..index import clone, set_parents, walk_own
+    node = clone(fi.node)
+    set_parents(node)
+    changed = False
+    for st in [x for x in walk_own(node) if isinstance(x, ast.Assign)]:
+        if not (len(st.targets) == 1 and isinstance(st.targets[0], ast.Name) and isinstance(st.value, ast.Call) and isinstance(st.value.func, ast.Name)):
+            continue
+        P, cname = st.targets[0].id, st.value.func.id
+        ci = idx.classes.get(fi.module.name + '.' + cname)
+        if ci is None or not idx.has_func(ci.qualname + '.__init__') or len(ci.mro) > 2:
+            continue
+        stores = [n for n in walk_own(node) if isinstance(n, ast.Name) and n.id == P and isinstance(n.ctx, (ast.Store, ast.Del))]
+        loads = [n for n in walk_own(node) if isinstance(n, ast.Name) and n.id == P and isinstance(n.ctx, ast.Load)]
+        init = idx.func(ci.qualname + '.__init__')
+        params = list(init.params[1:])
+        body = [s_ for s_ in init.node.body if not (isinstance(s_, ast.Expr) and isinstance(s_.value, ast.Constant))]
+        fields = []
+        ok = len(stores) == 1 and not init.node.args.vararg and not init.node.args.kwarg and not init.node.args.defaults
+        for s_ in body:
+            b = m(spat("self._F = _V"), s_) if False else None
+            if isinstance(s_, ast.Assign) and len(s_.targets) == 1 and isinstance(s_.targets[0], ast.Attribute) and is_name(s_.targets[0].value, init.params[0]):
+                v = s_.value
+                fresh = (isinstance(v, (ast.List, ast.Dict, ast.Set, ast.Tuple)) and not getattr(v, 'elts', getattr(v, 'keys', None))) or (
+                    isinstance(v, ast.Constant)) or (isinstance(v, ast.Call) and isinstance(v.func, ast.Name) and v.func.id in ('list', 'dict', 'set') and not v.args)
+                if isinstance(v, ast.Name) and v.id in params:
+                    fields.append((s_.targets[0].attr, ('param', v.id)))
+                elif fresh:
+                    fields.append((s_.targets[0].attr, ('fresh', v)))
+                else:
+                    ok = False
+            else:
+                ok = False
+        names = [f for f, _ in fields]
+        if not ok or len(set(names)) != len(names) or not fields:
+            continue
+        if not all(isinstance(parent(n), ast.Attribute) and parent(n).value is n and parent(n).attr in names for n in loads):
+            continue
+        # methods of the record must not be in play any more (the normaliser inlined them), and fields are plain data
+        call = st.value
+        new_stmts = None
+        if len(call.args) == 1 and isinstance(call.args[0], ast.Starred) and not call.keywords \
+                and [k for f, (k, _) in fields] == ['param'] * len(fields) and [v for f, (k, v) in fields] == params:
+            new_stmts = [ast.Assign(targets=[ast.Tuple(elts=[ast.Name(id='%s__%s' % (P, f), ctx=ast.Store()) for f in names], ctx=ast.Store())],
+                                    value=call.args[0].value)]
+        elif not any(isinstance(a, ast.Starred) for a in call.args):
+            try:
+                bound = bind_call(call, params)
+            except AnalysisError:
+                continue
+            if set(bound) != set(params):
+                continue
+            # arguments are evaluated in call order, then the fields are bound
+            if [k for f, (k, _) in fields if k == 'param'] and [v for f, (k, v) in fields if k == 'param'] != params:
+                if not all(isinstance(bound[q], (ast.Name, ast.Constant, ast.Attribute)) for q in params):
+                    continue
+            new_stmts = []
+            for f, (k, v) in fields:
+                new_stmts.append(ast.Assign(targets=[ast.Name(id='%s__%s' % (P, f), ctx=ast.Store())], value=bound[v] if k == 'param' else clone(v)))
+        if new_stmts is None:
+            continue
+        par = parent(st)
+        placed = False
+        for fld in ('body', 'orelse', 'finalbody'):
+            lst = getattr(par, fld, None)
+            if isinstance(lst, list) and any(x is st for x in lst):
+                i = [k for k, x in enumerate(lst) if x is st][0]
+                lst[i:i + 1] = [ast.copy_location(x, st) for x in new_stmts]
+                placed = True
+        if not placed:
+            continue
+        for n in loads:
+            a = parent(n)
+            ga = parent(a)
+            repl = ast.Name(id='%s__%s' % (P, a.attr), ctx=a.ctx)
+            for f_, v_ in ast.iter_fields(ga):
+                if v_ is a:
+                    setattr(ga, f_, repl)
+                elif isinstance(v_, list):
+                    for i_, x_ in enumerate(v_):
+                        if x_ is a:
+                            v_[i_] = repl
+        changed = True
+        ast.fix_missing_locations(node)
+        set_parents(node)
+    if not changed:
+        return fi
+    return View(fi, node)
+
+
+# ------------------------------------------------------------------ generators consumed by a for loop
+def inline_generator_loops(idx, fi, only=None):
+    """View in which `for T in gen(args): BODY` over a package generator function (yields as expression statements only, no
+    return; BODY without break / continue / return of its own) is read as the generator's body with every `yield E`
+    replaced by `T = E; BODY` - the order of all effects is the one of the lazy original.  Returns (view, names)."""
+    from ..index import clone, set_parents, walk_own, local_names
+    orig = getattr(fi, 'original', fi)
+    node = clone(fi.node)
+    mapping = {}
+    for a, b in zip(ast.walk(fi.node), ast.walk(node)):
+        if isinstance(a, ast.Call):
+            mapping[id(b)] = a
+    done = set()
+    counter = [0]
+
+    def escapes(stmts):
+        for s_ in stmts:
+            for x in ast.walk(s_):
+                if isinstance(x, ast.Return):
+                    return True
+            stack = [s_]
+            while stack:
+                y = stack.pop()
+                if isinstance(y, (ast.Break, ast.Continue)):
+                    return True
+                for c in ast.iter_child_nodes(y):
+                    if not isinstance(c, (ast.For, ast.While, ast.FunctionDef, ast.Lambda)):
+                        stack.append(c)
+        return False
+
+    def expand(st):
+        if not isinstance(st, ast.For) or st.orelse or not isinstance(st.iter, ast.Call):
+            return None
+        a = mapping.get(id(st.iter))
+        if a is None:
+            return None
+        try:
+            targets, how = idx.resolve_call(orig, a)
+        except Exception:
+            return None
+        fts = [t for t in targets if hasattr(t, 'node')]
+        if len(fts) != 1 or (only is not None and fts[0].qualname not in only):
+            return None
+        g = fts[0]
+        gn = g.node
+        yields = [y for y in ast.walk(gn) if isinstance(y, (ast.Yield, ast.YieldFrom))]
+        if not yields or any(isinstance(y, ast.YieldFrom) or not isinstance(parent(y), ast.Expr) for y in yields) \
+                or any(isinstance(x, (ast.Return, ast.Try, ast.With, ast.FunctionDef, ast.Lambda, ast.Global, ast.Nonlocal)) and x is not gn for x in ast.walk(gn)) \
+                or gn.args.vararg or gn.args.kwarg or escapes(st.body):
+            return None
+        params = list(g.params)
+        if g.cls is not None and not g.is_static:
+            if not (isinstance(st.iter.func, ast.Attribute) and is_name(st.iter.func.value, 'self') and params and params[0] == 'self'):
+                return None
+            params = params[1:]
+        try:
+            bound = bind_call(st.iter, params)
+        except AnalysisError:
+            return None
+        if set(bound) != set(params):
+            return None
+        counter[0] += 1
+        pre = []
+        sub = {}
+        for q in params:
+            if isinstance(bound[q], (ast.Name, ast.Constant, ast.Attribute)):
+                sub[q] = bound[q]
+            else:
+                tmp = '%s_g%d' % (q, counter[0])
+                pre.append(ast.copy_location(ast.Assign(targets=[ast.Name(id=tmp, ctx=ast.Store())], value=bound[q]), st))
+                sub[q] = ast.Name(id=tmp, ctx=ast.Load())
+        ren = {n: '%s_g%d' % (n, counter[0]) for n in set(local_names(gn)) - set(g.params)}
+        body = [clone(s_) for s_ in gn.body if not (isinstance(s_, ast.Expr) and isinstance(s_.value, ast.Constant))]
+
+        def fix(stmts):
+            out = []
+            for s_ in stmts:
+                if isinstance(s_, ast.Expr) and isinstance(s_.value, ast.Yield):
+                    val = s_.value.value if s_.value.value is not None else ast.Constant(value=None)
+                    out.append(ast.copy_location(ast.Assign(targets=[clone(st.target)], value=val), st))
+                    out.extend(clone(b_) for b_ in st.body)
+                    continue
+                for fld in ('body', 'orelse', 'finalbody'):
+                    if isinstance(getattr(s_, fld, None), list):
+                        setattr(s_, fld, fix(getattr(s_, fld)))
+                out.append(s_)
+            return out
+        # rename / substitute in the generator's own code first, then splice the consumer's body in
+        new_body = []
+        for s_ in body:
+            s2 = nf._Subst(sub).visit(s_)
+            for n in ast.walk(s2):
+                if isinstance(n, ast.Name) and n.id in ren:
+                    n.id = ren[n.id]
+            new_body.append(s2)
+        done.add(g.qualname)
+        return pre + fix(new_body)
+
+    def rewrite(stmts):
+        out = []
+        for st in stmts:
+            for fld in ('body', 'orelse', 'finalbody'):
+                if isinstance(getattr(st, fld, None), list) and not isinstance(st, (ast.FunctionDef, ast.ClassDef)):
+                    setattr(st, fld, rewrite(getattr(st, fld)))
+            rep = expand(st)
+            out.extend(rep if rep is not None else [st])
+        return out
+    node.body = rewrite(node.body)
+    if not done:
+        return fi, done
+    ast.fix_missing_locations(node)
+    set_parents(node)
+    return View(fi, node), done
+
+
+def local_value(fn, v, use_stmt):
+    """If v is a local name bound exactly once, by a statement of the same block as `use_stmt` and before it, with nothing
+    in between that rebinds or stores into a name its value reads: that value; else v itself."""
+    from ..index import walk_own
+    if not isinstance(v, ast.Name):
+        return v
+    defs = [x for x in walk_own(fn) if (isinstance(x, (ast.Assign, ast.AugAssign)) and v.id in assigned_names(x))
+            or (isinstance(x, (ast.For, ast.comprehension)) and v.id in assigned_names(x.target))]
+    if len(defs) != 1 or not isinstance(defs[0], ast.Assign) or len(defs[0].targets) != 1 or not is_name(defs[0].targets[0], v.id):
+        return v
+    d = defs[0]
+    par = parent(d)
+    for fld in ('body', 'orelse', 'finalbody'):
+        lst = getattr(par, fld, None)
+        if isinstance(lst, list) and any(x is d for x in lst) and any(x is use_stmt for x in lst):
+            i, j = [k for k, x in enumerate(lst) if x is d][0], [k for k, x in enumerate(lst) if x is use_stmt][0]
+            if i >= j:
+                return v
+            reads = {n.id for n in ast.walk(d.value) if isinstance(n, ast.Name)}
+            for mid in lst[i + 1:j]:
+                for n in ast.walk(mid):
+                    if isinstance(n, ast.Name) and n.id in reads and isinstance(n.ctx, (ast.Store, ast.Del)):
+                        return v
+                    if isinstance(n, (ast.Subscript, ast.Attribute)) and isinstance(n.ctx, (ast.Store, ast.Del)) and isinstance(n.value, ast.Name) \
+                            and n.value.id in reads:
+                        return v
+            return d.value
+    return v
